@@ -136,9 +136,8 @@ package writeback
 //@   loop 0: invariant forall k in 0..len(txs(s)) :: c17TxKept(s, k)
 
 //@ func bufs(f) = f.pipeline.comp.State.DirToBankBufs
-//@ func c17Bank(f) = (evl(f)[0].SetID * f.pipeline.comp.spec.WayAssociativity + evl(f)[0].WayID) % len(bufs(f))
 //@ pred c17HeadOK(f) = 0 <= evl(f)[0].SetID && evl(f)[0].SetID < len(sets(f)) && 0 <= evl(f)[0].WayID && evl(f)[0].WayID < len(sets(f)[evl(f)[0].SetID].Blocks) && len(bufs(f)) > 0 && 0 <= f.pipeline.comp.spec.WayAssociativity && evl(f)[0].SetID * f.pipeline.comp.spec.WayAssociativity + evl(f)[0].WayID <= MaxInt64
-//@ pred c17CanPush(f) = len(bufs(f)[c17Bank(f)].elements) < bufs(f)[c17Bank(f)].cap
+//@ pred c17CanPush(f, b) = len(bufs(f)[b].elements) < bufs(f)[b].cap
 // transaction k evicts block (s, w): it carries the block's PID, tag, cache address and dirty mask (the same slice)
 //@ pred c17Evicts(f, k, s, w) = txs(f.pipeline.comp.State)[k].HasFlush && txs(f.pipeline.comp.State)[k].HasVictim && txs(f.pipeline.comp.State)[k].HasBlock && !txs(f.pipeline.comp.State)[k].Removed && txs(f.pipeline.comp.State)[k].Action == bankEvict && txs(f.pipeline.comp.State)[k].BlockSetID == s && txs(f.pipeline.comp.State)[k].BlockWayID == w
 //@   && txs(f.pipeline.comp.State)[k].VictimPID == sets(f)[s].Blocks[w].PID && txs(f.pipeline.comp.State)[k].EvictingPID == sets(f)[s].Blocks[w].PID && txs(f.pipeline.comp.State)[k].VictimTag == sets(f)[s].Blocks[w].Tag && txs(f.pipeline.comp.State)[k].EvictingAddr == sets(f)[s].Blocks[w].Tag
@@ -146,10 +145,12 @@ package writeback
 //@ fn (*flusher).processFlush
 //@   property C17
 //@   requires f != nil && f.pipeline != nil && f.pipeline.comp != nil
-//@   requires len(evl(f)) > 0 ==> c17HeadOK(f) && queueing.bufWF(bufs(f)[c17Bank(f)])
+//@   requires len(evl(f)) > 0 ==> c17HeadOK(f) && (forall b in 0..len(bufs(f)) :: queueing.bufWF(bufs(f)[b]))
+//     bank = the bank chosen by bankID for the head block (bankID's contract only promises a bank in range)
+//@   witness bank int = bankNum
 //@   witness tix int = transIdx
 //@   label C17.flush.progress
-//@   ensures result <==> old(len(evl(f)) > 0 && c17CanPush(f))
+//@   ensures (result ==> 0 <= bank && bank < len(bufs(f))) && (result <==> old(len(evl(f)) > 0) && old(c17CanPush(f, bank)))
 //@   label C17.flush.blocked
 //@   ensures !result ==> len(evl(f)) == old(len(evl(f))) && ref(evl(f)) == old(ref(evl(f))) && off(evl(f)) == old(off(evl(f))) && len(txs(f.pipeline.comp.State)) == old(len(txs(f.pipeline.comp.State)))
 //@   label C17.flush.consumed
@@ -159,5 +160,5 @@ package writeback
 //@   label C17.flush.others
 //@   ensures result ==> (forall k in 0..old(len(txs(f.pipeline.comp.State))) :: k != tix ==> c17FTxKept(f, k))
 //@   label C17.flush.queued
-//@   ensures result ==> len(bufs(f)[old(c17Bank(f))].elements) == old(len(bufs(f)[c17Bank(f)].elements)) + 1 && bufs(f)[old(c17Bank(f))].elements[old(len(bufs(f)[c17Bank(f)].elements))] == tix
+//@   ensures result ==> len(bufs(f)[bank].elements) == old(len(bufs(f)[bank].elements)) + 1 && bufs(f)[bank].elements[old(len(bufs(f)[bank].elements))] == tix
 //@   assigns f.pipeline.comp.State.FlusherBlockToEvictRefs, f.pipeline.comp.State.Transactions, elems(f.pipeline.comp.State.Transactions), elems(f.pipeline.comp.State.DirToBankBufs), key("E|int|")
